@@ -138,6 +138,16 @@ Qed.
 Theorem C08_typed_params_limited : forall p, In p params -> collection_typed p = true -> p_limiting p = true.
 Proof. exact typed_params_limited. Qed.
 
+(* finite, over the regenerated probes of every smart-type COMBINATOR found in yaqltypes (AnyOf, Chain,
+   with NotOfType members, nullable, nested) instantiated over Iterable / Iterator and scalars: whatever
+   the declaration, a parameter type that accepts a generator limits it (<= N+1 pulls, then
+   CollectionTooLargeException), and one that accepts a sized collection refuses N+1 elements, returns N
+   elements unchanged and checks the memory quota *)
+Theorem C08_combinator_params_limited : forall c, In c combinators ->
+  (c_acc_iter c = true -> c_limiting c = true) /\
+  (c_acc_sized c = true -> c_sized_refused c = true /\ c_sized_ok c = true /\ c_quota_ok c = true).
+Proof. exact combinators_limited. Qed.
+
 (* every eager parameter that accepts an iterator is either covered by the theorem above or a
    member of the explicit list of `object`-typed positions (swept by the O part of the check) *)
 Theorem C08_iterator_params_partition : forall p, In p params ->
@@ -213,4 +223,5 @@ Print Assumptions C08_repetition_refuses_first_here.
 Print Assumptions C08_repetition_never_over_quota.
 Print Assumptions C08_repetition_historic_refuted.
 Print Assumptions C08_typed_params_limited.
+Print Assumptions C08_combinator_params_limited.
 Print Assumptions C08_iterator_params_partition.
